@@ -47,6 +47,12 @@ type Step struct {
 	RO     bool       `json:"ro,omitempty"`
 	Commit bool       `json:"commit,omitempty"`
 	Us     int        `json:"us,omitempty"` // pause: think time in microseconds
+	// Shared (tx / rtx steps): a second goroutine works on the SAME transaction
+	// object while the body runs (the gRPC service does that when a client
+	// pipelines requests for one transaction id): it executes the body's
+	// operations in reverse order, scans included; both are joined before the
+	// transaction is finished
+	Shared bool `json:"shared,omitempty"`
 }
 
 // Script is what one goroutine executes (round after round, see Case.MinRunMs).
@@ -105,14 +111,14 @@ const (
 )
 
 var roles = map[string]map[string]int{
-	"writer": {opPut: 12, opDel: 6, opBatch: 4, opGet: 2, opTx: 1},
+	"writer":  {opPut: 12, opDel: 6, opBatch: 4, opGet: 2, opTx: 1},
 	"deleter": {opDel: 12, opPut: 3, opBatch: 3, opIsDel: 3, opTomb: 1, opPreserve: 1},
-	"reader": {opGet: 8, opIsDel: 3, opIter: 4, opRIter: 4, opStats: 1, opTx: 2},
+	"reader":  {opGet: 8, opIsDel: 3, opIter: 4, opRIter: 4, opStats: 1, opTx: 2},
 	"scanner": {opIter: 8, opRIter: 8, opGet: 2},
-	"txer":   {opTx: 10, opRTx: 5, opRClean: 1, opRConn: 1, opGet: 2, opPut: 2},
-	"repl":   {opGetWAL: 8, opROToggle: 1, opIsRO: 3, opStats: 2, opPause: 3, opPut: 2},
-	"maint": {opFlush: 6, opCompact: 4, opCRange: 4, opStats: 3, opCStats: 3, opPause: 4, opPut: 3},
-	"stats": {opStats: 8, opCStats: 8, opGet: 2, opPause: 2},
+	"txer":    {opTx: 10, opRTx: 5, opRClean: 1, opRConn: 1, opGet: 2, opPut: 2},
+	"repl":    {opGetWAL: 8, opROToggle: 1, opIsRO: 3, opStats: 2, opPause: 3, opPut: 2},
+	"maint":   {opFlush: 6, opCompact: 4, opCRange: 4, opStats: 3, opCStats: 3, opPause: 4, opPut: 3},
+	"stats":   {opStats: 8, opCStats: 8, opGet: 2, opPause: 2},
 	"mixed": {opPut: 6, opGet: 4, opDel: 3, opIsDel: 1, opBatch: 2, opIter: 2, opRIter: 2, opTx: 3,
 		opFlush: 2, opCompact: 1, opCRange: 1, opStats: 1, opCStats: 1, opTomb: 1, opPreserve: 1,
 		opRTx: 1, opRClean: 1, opGetWAL: 1, opIsRO: 1},
@@ -284,7 +290,8 @@ func (g *genState) step(t *rapid.T, role string) Step {
 				body = append(body, TxOp{Op: k, A: g.bound(t), B: g.bound(t), Seek: s, N: n})
 			}
 		}
-		return Step{Op: op, RO: ro, Body: body, Commit: rapid.IntRange(0, 3).Draw(t, "commit") != 0}
+		return Step{Op: op, RO: ro, Body: body, Commit: rapid.IntRange(0, 3).Draw(t, "commit") != 0,
+			Shared: rapid.IntRange(0, 3).Draw(t, "sharedtx") == 0}
 	case opCRange:
 		return Step{Op: op, A: g.bound(t), B: g.bound(t)}
 	case opPause:
